@@ -126,8 +126,24 @@ class Tracker(Monitor):
 
     def on_process_event_received(self, inst, status, event):
         namespec = f"{event['group']}:{event['name']}"
-        self.received[(inst.nick, inst.inc, self.w.by_identifier.get(status.identifier), namespec)] = \
-            (self.w.now, event['state'])
+        source = self.w.by_identifier.get(status.identifier)
+        # production instant in world time, from the stamp of the source (its monotonic clock has a known offset)
+        produced = self.w.now
+        if 'forced' not in event and source is not None:
+            produced = event['now_monotonic'] - self.w.spec_of(source).get('mono_off', 0.0) + 1_700_000_000.0
+        self.received[(inst.nick, inst.inc, source, namespec)] = (self.w.now, event['state'], produced)
+
+    def judged_on_older_event(self, req, states):
+        """ The requester has received, since it emitted this request, an event of that process in one of the given
+        states that was produced before the request was delivered (or while it is still undelivered): it belongs to an
+        earlier start / stop cycle (another requester, an earlier plan) and cannot be the answer to this request. """
+        got = self.received.get((req['sender'], req['inc'], req['target_nick'], req['namespec']))
+        early = req.get('early_event')
+        if early and early[1] in states:
+            return True
+        if got and got[0] >= req['t'] and got[1] in states:
+            return req['delivered'] is None or got[2] < req.get('delivered_t', 0.0)
+        return False
 
     def epoch_of(self, inst_nick, inc, app):
         return self.epoch.get((inst_nick, inc, app), 0)
@@ -206,6 +222,12 @@ class Tracker(Monitor):
             if state in RUN_CODES:
                 self.ever_started.add(ev['namespec'])
             run = self.run
+            for req in self.open_starts + self.open_stops:
+                if not req['resolved'] and req['target_nick'] == ev['inst'] and req['namespec'] == ev['namespec'] \
+                        and req['delivered'] is None:
+                    # an event of that process produced after the emission of the request and before its delivery:
+                    # it belongs to an earlier cycle (another requester, an earlier plan)
+                    req['early_event'] = (ev['t'], state)
             for req in list(self.open_starts):
                 if req['resolved'] or req['target_nick'] != ev['inst'] or req['namespec'] != ev['namespec']:
                     continue
@@ -318,9 +340,7 @@ class StartSequenceMonitor(Monitor):
                     if 0 < oseq < seq:
                         self.count('nontrivial_order_checks')
                         mech = ''
-                        got = tr.received.get((req['sender'], req['inc'], other['target_nick'], other['namespec']))
-                        if other['delivered'] is None and got and got[0] >= other['t'] and \
-                                got[1] in (0, 40, 100, 200, 1000):
+                        if tr.judged_on_older_event(other, (0, 40, 100, 200, 1000)):
                             # the requester has judged its request (failed) on an event of that process which was
                             # produced before the request was even delivered (an earlier start / stop cycle)
                             mech = ':request-judged-on-an-event-older-than-its-delivery'
@@ -801,9 +821,7 @@ class StopSequenceMonitor(Monitor):
                         for n in active:
                             mine = [r for r in tr.stops if r['sender'] == req['sender'] and r['inc'] == req['inc'] and
                                     r['namespec'] == other and r['target_nick'] == n and r['t'] >= plan['t']]
-                            got = tr.received.get((req['sender'], req['inc'], n, other))
-                            if mine and mine[-1]['delivered'] is None and got and got[0] >= mine[-1]['t'] and \
-                                    got[1] in (0, 100, 200, 1000):
+                            if mine and tr.judged_on_older_event(mine[-1], (0, 100, 200, 1000)):
                                 # the requester took a stopped-like event of an earlier cycle of that process, still in
                                 # flight when it emitted its stop request, for the answer to that request
                                 mech = ':request-judged-on-an-event-older-than-its-delivery'
